@@ -2,6 +2,7 @@ import MindsVerif.Lemmas.DecodeMain
 import MindsVerif.Lemmas.Encode
 import MindsVerif.Lemmas.Ident
 import MindsVerif.Lemmas.Codec
+import MindsVerif.Lemmas.IdentBq
 import MindsVerif.Model.LexTab
 import MindsVerif.Gen.Lex_sqlite
 import MindsVerif.Gen.Lex_mysql
@@ -11,14 +12,21 @@ import MindsVerif.Gen.Reserved
 # C04 — string, number and identifier tokens keep exactly the value the SQL text denotes
 
 Specification: `Denote` (what a literal *is* — `items` — and what it denotes), independent of the code.
-Code model: `Lex` (regex matchers with Python's backtracking priority, token values, grammar actions (un-escape + strip),
-encoders) over `Py` (`str.replace`, `strip`).  The regex source strings, the reserved words, the keyword
-rules and the `id` alternatives are regenerated from the live objects (`Gen/Lex_<d>`, `Gen/Reserved`)
-and pinned below.
 
-The full statement is false on the pinned tree; each `_partial` theorem is proved for **all** literals /
-values outside explicitly named, decidable classes, and each class has a `decide`d witness
-(`C04_witness_*`) that the model (hence, by the correspondence check, the code) really fails there.
+**Main theorems for the live code** (string codec of /repo 2843e02 = `Model/Codec.lean`: one left-to-right
+`unescape_string` in the three grammars, the same string regexes in the three lexers, `Constant.get_string` escaping
+backslashes; tied to the code by the correspondence streams whenever `Gen.RenderPins.codecFixed = true`):
+`C04_codec_decode`, `C04_codec_encode`, `C04_codec_roundtrip` — the FULL statements, all strings, all dialects, no
+hypotheses.  Identifiers: `C04_identifier_{mindsdb,mysql,sqlite}` (+ `C04_identifier_bq_*` for the doubled
+back-quote codec of `docs/proposed_fixes/C04_4.diff`, live when `bqDoubled`), Φ4 obligations `phi4_*`; integers
+`C04_integer`.
+
+**History / regression examples** (the codec before 2843e02 = `Model/Lex.lean`: chained `replace` + `strip` in
+MindsDB, escape-less sqlite / mysql lexers, printer without backslash escaping): the `_partial` theorems
+(`C04_decode_partial`, `C04_decode_dquote_partial`, `C04_decode_simple_partial`, `C04_encode_partial`,
+`C04_roundtrip_*_partial`) delimit exactly where that code was right, and the `C04_witness_*` theorems exhibit the
+defects that were repaired (KF-C04-1 … -5, fixed).  They remain true statements about `Lex`; the example next to
+`C04_codec_roundtrip` shows the same inputs decoded correctly by `Codec`.
 -/
 namespace MindsVerif.Props.C04
 open MindsVerif MindsVerif.Py MindsVerif.Lex MindsVerif.Denote MindsVerif.Literal MindsVerif.Gen
@@ -46,7 +54,7 @@ def C04_full_ident (K : KwTable) (reserved : List (List Char)) : Prop :=
   ∀ parts : List (List Char), parts ≠ [] → (∀ p ∈ parts, p ≠ []) →
     lexIdentPath K (partsToStr reserved parts) = some parts
 
-/-! ## T4.1 decoding -/
+/-! ## History: T4.1 decoding by the codec before 2843e02 (`Model/Lex.lean`) -/
 
 /-- the MindsDB `QUOTE_STRING` regex, with Python's backtracking, matches exactly a specification literal
 (for *every* literal, including the known-finding classes: the token boundary is always right) -/
@@ -115,7 +123,7 @@ theorem C04_decode_simple_partial (d : Dialect) (hd : d ≠ .mindsdb) (items : L
     simp only [List.cons_append] at k2
     cases d <;> first | exact absurd rfl hd | simp [srcLit, readString, lexDQuote, unescDQuote, dquoteString, k1, k2]
 
-/-! ## T4.2 encoding -/
+/-! ## History: T4.2 encoding before 2843e02 -/
 
 /-- **T4.2, partial.** `Constant.get_string` of a value in which every backslash is followed by a character
 other than `\`, `'`, `"` is one specification literal denoting the value. Missing: the other values
@@ -128,7 +136,7 @@ theorem C04_encode_partial (v rest : List Char) (hv : encOK v = true) (hr : rest
   have := scanGo_src '\'' true (by decide) rest hr (encItems v) e2
   simp [constantToString, Denote.scan, e1, this]
 
-/-! ## T4.2 ∘ T4.1: `decode (encode v) = v` for the code as it is -/
+/-! ## History: `decode (encode v) = v` for the codec before 2843e02 -/
 
 /-- **MindsDB round trip, partial.** `parse (Constant(v).to_string())` holds `v` again for every value in which every
 backslash is followed by a character other than `\ ' "` (else KF-C04-5), that does not start or end with a
@@ -151,9 +159,9 @@ theorem C04_witness_roundtrip :
     readString .mindsdb (constantToString ['\\']) = some ([], []) ∧
     readString .sqlite (constantToString ['a', '\'', 'b']) = some (['a', '\\'], ['b', '\'']) := by decide
 
-/-! ## the codec of `docs/proposed_fixes/C04_2.diff` (`Model/Codec.lean`): the FULL statements hold, in every dialect
+/-! ## MAIN: the live codec (/repo 2843e02, `Model/Codec.lean`): the FULL statements hold, in every dialect
 
-These are theorems about the proposed code (one scan `unescape_string` in the three grammars, the MindsDB string
+These are theorems about the code of 2843e02 (one scan `unescape_string` in the three grammars, the MindsDB string
 regexes in the three lexers, `Constant.get_string` escaping backslashes).  The check ties `Codec` to the live code as
 soon as `Gen.RenderPins.codecFixed = true` (or under `VERIF_REPO=<patched tree>`). -/
 
@@ -210,20 +218,29 @@ example :
       Lex_sqlite.QUOTE_STRING = Lex_mindsdb.QUOTE_STRING ∧ Lex_mysql.QUOTE_STRING = Lex_mindsdb.QUOTE_STRING ∧
       Lex_sqlite.DQUOTE_STRING = Lex_mindsdb.DQUOTE_STRING ∧ Lex_mysql.DQUOTE_STRING = Lex_mindsdb.DQUOTE_STRING) := by
   decide
-example : Lex_mindsdb.ID = "((?:([a-zA-Z_$0-9]*[a-zA-Z_$]+[a-zA-Z_$0-9]*)|(?:`([^`]+)`)))" ∧
-    Lex_sqlite.ID = Lex_mindsdb.ID ∧ Lex_mysql.ID = Lex_mindsdb.ID := by decide
+/-- `ID` of the three lexers: back-quoted alternative without (pinned tree) or with (`bqDoubled`,
+`docs/proposed_fixes/C04_4.diff`) the doubled back-quote; same state as `path_str_parts_regex` -/
+example :
+    (RenderPins.bqDoubled = false ∧
+      Lex_mindsdb.ID = "((?:([a-zA-Z_$0-9]*[a-zA-Z_$]+[a-zA-Z_$0-9]*)|(?:`([^`]+)`)))" ∧
+      Reserved.pathParts = "(?:(?:(`[^`]+`))|([^.]+))") ∨
+    (RenderPins.bqDoubled = true ∧
+      Lex_mindsdb.ID = "((?:([a-zA-Z_$0-9]*[a-zA-Z_$]+[a-zA-Z_$0-9]*)|(?:`((?:[^`]|``)+)`)))" ∧
+      Reserved.pathParts = "(?:(?:(`(?:[^`]|``)+`))|([^.]+))") := by decide
+example : Lex_sqlite.ID = Lex_mindsdb.ID ∧ Lex_mysql.ID = Lex_mindsdb.ID := by decide
 example : Lex_mindsdb.FLOAT = "(\\d+\\.\\d+)" ∧ Lex_sqlite.FLOAT = "(\\d+\\.\\d*)" ∧ Lex_mysql.FLOAT = "(\\d+\\.\\d*)" := by decide
 example : Lex_mindsdb.INTEGER = "(\\d+)" ∧ Lex_sqlite.INTEGER = "(\\d+)" ∧ Lex_mysql.INTEGER = "(\\d+)" := by decide
 example : Lex_mindsdb.VARIABLE = "(@[a-zA-Z_.$]+)|(@'[a-zA-Z_.$][^']*')|(@`[a-zA-Z_.$][^`]*`)|(@\"[a-zA-Z_.$][^\"]*\")" ∧
     Lex_mysql.VARIABLE = Lex_mindsdb.VARIABLE := by decide
 example : Lex_mindsdb.DOT = "\\." ∧ Lex_mindsdb.PARAMETER = "\\?" := by decide
 example : Lex_mindsdb.ignoreCase = true ∧ Lex_sqlite.ignoreCase = true ∧ Lex_mysql.ignoreCase = true := by decide
-/-- the rules with token actions are exactly the modelled ones (a new action on another token shows up here) -/
-example : Lex_mindsdb.tokenFuncs = ["DQUOTE_STRING","FLOAT","ID","INTEGER","QUOTE_STRING","SYSTEM_VARIABLE","VARIABLE","newline"] ∧
-    Lex_mysql.tokenFuncs = Lex_mindsdb.tokenFuncs ∧
-    Lex_sqlite.tokenFuncs = ["DQUOTE_STRING","FLOAT","ID","INTEGER","QUOTE_STRING","newline"] := by decide
+/-- the token-producing rules with Python actions are exactly the modelled ones (a new action on another token shows
+up here; actions of ignored rules — newline / comment line counting — are not literal matters) -/
+example : Lex_mindsdb.valueTokenFuncs = ["DQUOTE_STRING","FLOAT","ID","INTEGER","QUOTE_STRING","SYSTEM_VARIABLE","VARIABLE"] ∧
+    Lex_mysql.valueTokenFuncs = Lex_mindsdb.valueTokenFuncs ∧
+    Lex_sqlite.valueTokenFuncs = ["DQUOTE_STRING","FLOAT","ID","INTEGER","QUOTE_STRING"] := by decide
 example : Reserved.noWrap = "[a-zA-Z_][a-zA-Z_0-9]*" ∧ Reserved.noWrapFlags = 32 := by decide
-example : Reserved.pathParts = "(?:(?:(`[^`]+`))|([^.]+))" ∧ Reserved.pathPartsFlags = 32 := by decide
+example : Reserved.pathPartsFlags = 32 := by decide
 -- (the source text of `Constant.get_string` is exported to `Gen.RenderPins` as information only: a pin on source
 -- text would turn every harmless refactoring into a broken obligation; the encoder is tied by correspondence)
 
@@ -272,7 +289,33 @@ theorem C04_identifier_sqlite (parts : List (List Char)) (hne : parts ≠ []) (h
     lexIdentPath K_sqlite (partsToStr reservedL parts) = some parts :=
   C04_identifier_partial _ _ _ phi4h_sqlite parts hne fun p h => partOK_of_rep (hp p h)
 
-/-! ## witnesses: the model exhibits every known-finding class -/
+/-! ## T4.3 for the identifier codec of `docs/proposed_fixes/C04_4.diff` (`Model/LexBq.lean`): back-quotes doubled
+
+Theorems about the proposed code; tied to the live code when `Gen.RenderPins.bqDoubled = true`.  The only
+exclusion left is the empty part (`` `` `` is no identifier in any SQL dialect). -/
+
+theorem C04_identifier_bq_generic (K : KwTable) (reserved kf : List (List Char))
+    (h : Ident.phi4 K reserved kf = true) (parts : List (List Char)) (hne : parts ≠ [])
+    (hp : ∀ p ∈ parts, IdentBq.PartOK kf p) :
+    LexBq.lexIdentPath K (LexBq.partsToStr reserved parts) = some parts :=
+  IdentBq.ident_roundtrip K reserved kf h parts hne hp
+
+theorem C04_identifier_bq_mindsdb (parts : List (List Char)) (hne : parts ≠ []) (hp : ∀ p ∈ parts, p ≠ []) :
+    LexBq.lexIdentPath K_mindsdb (LexBq.partsToStr reservedL parts) = some parts :=
+  C04_identifier_bq_generic _ _ _ phi4h_mindsdb parts hne fun p h => ⟨hp p h, rfl⟩
+theorem C04_identifier_bq_mysql (parts : List (List Char)) (hne : parts ≠ []) (hp : ∀ p ∈ parts, p ≠ []) :
+    LexBq.lexIdentPath K_mysql (LexBq.partsToStr reservedL parts) = some parts :=
+  C04_identifier_bq_generic _ _ _ phi4h_mysql parts hne fun p h => ⟨hp p h, rfl⟩
+theorem C04_identifier_bq_sqlite (parts : List (List Char)) (hne : parts ≠ []) (hp : ∀ p ∈ parts, p ≠ []) :
+    LexBq.lexIdentPath K_sqlite (LexBq.partsToStr reservedL parts) = some parts :=
+  C04_identifier_bq_generic _ _ _ phi4h_sqlite parts hne fun p h => ⟨hp p h, rfl⟩
+
+/-- the witness of KF-C04-7 under the doubled codec, and the remaining exclusion -/
+example : LexBq.partsToStr reservedL [['a', '`', 'b']] = ['`', 'a', '`', '`', 'b', '`'] ∧
+    LexBq.lexIdentPath K_mindsdb (LexBq.partsToStr reservedL [['a', '`', 'b'], ['`']]) = some [['a', '`', 'b'], ['`']] ∧
+    LexBq.lexIdentPath K_mindsdb (LexBq.partsToStr reservedL [[]]) = none := by decide +kernel
+
+/-! ## regression examples: the defects of the old codec (all fixed), and the one open class (KF-C04-7) -/
 
 /-- KF-C04-2: `''''` denotes one quote, the decoder returns the empty string -/
 theorem C04_witness_edge : ¬ C04_full_decode .mindsdb := by
